@@ -121,6 +121,9 @@ func c11Prior(src tm.Tree, variant int) tm.Tree {
 			e.Uid, e.Gid = 7, 8
 			if variant == 2 {
 				e.Data = append([]byte("other:"), s.Data...)
+				if len(s.Path)%3 == 0 {
+					e.Data = nil // an existing EMPTY file has its own permissions too
+				}
 				e.Mtime = s.Mtime - 100
 			}
 		case tm.Dir:
